@@ -90,26 +90,33 @@ def g2(led, rid, ctx):
     led.check(len(cl) == 1, rid, "one-closure", f.span, "", "expected one mapping closure")
     if len(cl) == 1:
         g = cl[0]
-        nots = g.calls_named("not")
-        ok = len(nots) == 1
-        if ok:
-            # the negation is on the false edge of is_positive
-            ok = False
-            for fa in guards_of(g, nots[0].bb):
-                a = peel(fa.atom, calls=None)
-                if fa.kind == "bool" and fa.val is False and a.k == "call" and a.a.name == "is_positive":
-                    ok = True
-        led.check(ok, rid, "negates-negative-codes", g.span, "! only on the is_positive() false edge",
-                  "mapped_clause does not negate exactly the literals with a negative DIMACS code")
-        subs = 0
-        for b in g.blocks:
-            for s in b["stmts"]:
-                if s["s"] == "assign" and s["rv"]["r"] == "binop" and s["rv"]["op"].startswith("Sub"):
-                    from ..facts import op_const_int
-                    if op_const_int(s["rv"]["b"]) == 1:
-                        subs += 1
-        led.check(subs == 2, rid, "code-minus-one", g.span, "variables[|code| − 1] on both branches",
-                  "the DIMACS code → variable index mapping is not |code| − 1 on both branches")
+        # path TABLE of the mapping closure: code > 0 ↦ variables[|code| − 1], code < 0 ↦ ¬variables[|code| − 1]
+        from ..symexec import SymExec
+        paths = [pa for pa in SymExec(g, max_paths=64).run() if not pa.diverged and pa.ret is not None]
+        bad_sign = bad_index = None
+        for pa in paths:
+            sign = None
+            for c, v, o in pa.conds:
+                c_ = peel(c, calls=None)
+                if c_.k == "call" and c_.a.name in ("is_positive", "is_negative"):
+                    truth = (v == 1) if v is not None else (0 in (o or []))
+                    sign = truth if c_.a.name == "is_positive" else (not truth)
+            negated = sum(1 for x in pa.ret.walk() if x.k == "call" and x.a.name == "not") % 2 == 1
+            if sign is None or negated == sign:
+                bad_sign = "a path returns %s for a %s code" % (show(pa.ret)[:60], "positive" if sign else "negative" if sign is not None else "code of unknown sign")
+            idx_ok = False
+            for x in pa.ret.walk():
+                if x.k == "call" and x.a.name == "index" and len(x.b) >= 2:
+                    ie = peel(x.b[1], calls=None)
+                    if ie.k == "binop" and ie.a.startswith("Sub") and peel(ie.c, calls=None).k == "const" and peel(ie.c, calls=None).a == 1 \
+                            and any(y.k == "call" and y.a.name in ("unsigned_abs", "abs") for y in ie.b.walk()):
+                        idx_ok = True
+            if not idx_ok:
+                bad_index = show(pa.ret)[:80]
+        led.check(bool(paths) and bad_sign is None, rid, "negates-negative-codes", g.span, "¬ exactly for negative codes (per path)",
+                  "mapped_clause does not negate exactly the literals with a negative DIMACS code: %s" % bad_sign)
+        led.check(bool(paths) and bad_index is None, rid, "code-minus-one", g.span, "variables[|code| − 1] on every path",
+                  "the DIMACS code → variable index mapping is not |code| − 1 on every path (%s)" % bad_index)
     h = None
     for x in p.fns.values():
         if x.name == "add_hard_clause" and (x.self_adt or "").endswith("SolverDimacsSink"):
